@@ -121,12 +121,31 @@ KNOWN_INTERNAL = {
 
 
 # even the 'all' view keeps these as calls: the rules recognise them by name
+BYTE_API = {"from_slice", "to_vec", "from_tagged_slice", "to_tagged_vec"}
 NEVER_INLINE = {
     "sign::sig_structure_data", "mac::mac_structure_data", "encrypt::enc_structure_data", "util::cbor_type_error",
     "common::read_to_value", "header::ProtectedHeader::cbor_bstr", "header::ProtectedHeader::from_cbor_bstr",
     "header::ProtectedHeader::from_cbor_bstr_depth", "header::Header::is_empty", "header::ProtectedHeader::is_empty",
     "header::Header::from_cbor_value_depth", "sign::CoseSignature::from_cbor_value_depth",
 }
+
+
+def _normalise_idioms(d):
+    """`T::try_from(x)` is `x.try_into()` (TryInto is the blanket impl over TryFrom): one spelling for the rules.  The callee record
+    of such a call is rewritten to the try_into form (source type first, target second); `full` keeps the original text."""
+    if d.get("_idioms_normalised"):
+        return
+    d["_idioms_normalised"] = True
+    for f in d["fns"].values():
+        bodies = [f] + list(f.get("promoted") or [])
+        for body in bodies:
+            for b in body.get("blocks") or []:
+                t = b["term"]
+                c = t.get("callee") if t.get("k") == "call" else None
+                if c and c.get("path") == "core::convert::TryFrom::try_from" and len(c.get("args") or []) == 2 and len(t.get("args") or []) == 1:
+                    tgt, src = c["args"]
+                    c.update({"path": "core::convert::TryInto::try_into", "name": "try_into", "args": [src, tgt],
+                              "trait": "core::convert::TryInto", "self_ty": src, "was_try_from": True})
 
 
 class Program:
@@ -155,6 +174,7 @@ class Program:
         if expect_nonce is not None and self.meta.get("nonce") != expect_nonce:
             raise FactsError("stale fact file: nonce %r != expected %r" % (self.meta.get("nonce"), expect_nonce))
         self.path = path
+        _normalise_idioms(self.d)
         self.fns = {k: Fn(k, v, self) for k, v in self.d["fns"].items()}
         self.adts = self.d["adts"]
         self.traits = self.d["traits"]
@@ -184,8 +204,19 @@ class Program:
         """a module-private free function / inherent method that no spec table names: rules look THROUGH such
         functions (they are an implementation detail a refactoring may introduce or remove at will)"""
         f = self.fns.get(key)
-        if f is None or f.kind not in ("Fn", "AssocFn") or not f.d.get("blocks") or f.trait_default_of:
+        if f is None or f.kind not in ("Fn", "AssocFn") or not f.d.get("blocks"):
             return False
+        if f.trait_default_of:
+            # a provided method of a crate-local trait that no impl overrides and that is not one of the byte-level anchors:
+            # `from_tagged_slice` delegating to a new `from_tagged_cbor_value` default is the same function split in two
+            # (net-effect view only)
+            if self.inline_mode != "all" or key in NEVER_INLINE or key.split("::")[-1] in BYTE_API:
+                return False
+            name = key.split("::")[-1]
+            for imp in self.impls:
+                if imp.get("trait") == f.trait_default_of and any(i["kind"] == "Fn" and i["name"] == name for i in imp["items"]):
+                    return False
+            return True
         if f.impl_trait:
             # a method of a crate-PRIVATE trait (util::ValueTryAs) that the rules do not know by name is a helper like any
             # other private function: `value.try_as_bytes_or_null()?` added next to try_as_bytes()
